@@ -982,6 +982,13 @@ fn dump<'tcx>(tcx: TyCtxt<'tcx>) {
         } else {
             // closure: parent fn
             let parent = tcx.typeck_root_def_id(did);
+            if let ty::Closure(_, cargs) =
+                tcx.type_of(did).instantiate_identity().skip_norm_wip().kind()
+            {
+                let ut: Vec<J> =
+                    cargs.as_closure().upvar_tys().iter().map(|t| cx.ty(t)).collect();
+                f.push(("upvar_tys", J::A(ut)));
+            }
             f.push(("root", cx.uidj(parent)));
             f.push(("parent", cx.uidj(tcx.parent(did))));
         }
